@@ -458,4 +458,154 @@ theorem NewQuery_ok (ext : Ext) (queryStr : GoString) (hf : (tokenize ext queryS
   · obtain ⟨v, hv⟩ := parse_ok ext _ (tokenize ext queryStr) hf
     rw [hv]; exact ⟨_, rfl⟩
 
+/-! ### how many tokens a query text has: at most its length plus one -/
+
+theorem fieldsAux_length (fuel : Nat) : ∀ (s cur : Bytes),
+    (fieldsAux fuel s cur).length ≤ s.length + (if cur = [] then 0 else 1) := by
+  induction fuel with
+  | zero => intro s cur; unfold fieldsAux; split <;> simp <;> omega
+  | succ n ih =>
+    intro s cur
+    cases s with
+    | nil => unfold fieldsAux; split <;> simp
+    | cons b rest =>
+      unfold fieldsAux
+      simp only []
+      by_cases hk : spaceLen (b :: rest) = 0
+      · rw [if_pos hk]
+        have := ih rest (cur ++ [b])
+        have hne : (cur ++ [b]) ≠ [] := by simp
+        rw [if_neg hne] at this
+        simp only [List.length_cons]
+        split <;> omega
+      · rw [if_neg hk]
+        have := ih ((b :: rest).drop (spaceLen (b :: rest))) []
+        simp only [if_true, Nat.add_zero] at this
+        have hd : ((b :: rest).drop (spaceLen (b :: rest))).length ≤ (b :: rest).length - 1 := by
+          rw [List.length_drop]; omega
+        simp only [List.length_append, List.length_cons] at hd ⊢
+        split <;> simp <;> omega
+
+theorem fields_length (s : Bytes) : (fields s).length ≤ s.length := by
+  have := fieldsAux_length (s.length + 1) s []
+  simpa [fields] using this
+
+/-- the sum of the lengths of the parts of a split, each counted with one more -/
+def partsWeight : List Bytes → Nat
+  | [] => 0
+  | p :: ps => p.length + 1 + partsWeight ps
+
+theorem splitOnByte_weight (sep : UInt8) (s : Bytes) : partsWeight (splitOnByte sep s) = s.length + 1 := by
+  induction s with
+  | nil => rfl
+  | cons b bs ih =>
+    unfold splitOnByte
+    by_cases hb : b = sep
+    · rw [if_pos hb]; simp only [partsWeight, List.length_nil, List.length_cons]; omega
+    · rw [if_neg hb]
+      cases hs : splitOnByte sep bs with
+      | nil => rw [hs] at ih; simp [partsWeight] at ih
+      | cons p ps =>
+        rw [hs] at ih
+        simp only [partsWeight, List.length_cons] at ih ⊢
+        omega
+
+/-- the loop of `tokenize` adds, per part of the split at '"', at most the part's length plus one tokens -/
+theorem tokenize_loop (ext : Ext) : ∀ (l : List (Int × GoString)) (tokens : List token),
+    (goRange l tokens
+      (fun tokens (x : Int × GoString) =>
+        if ((Int.tmod x.1 2) == 0) then
+          let commasStripped := (List.map (fun b => if b == (44 : UInt8) then (32 : UInt8) else b) x.2)
+          goRange (fields commasStripped) tokens
+            (fun tokens tokenStr =>
+              let token := ({ str := tokenStr, isBareword := true } : Dtail.Gen.MaprQuery.token)
+              let tokens := (tokens ++ [token])
+              LoopStep.next tokens)
+            (fun tokens =>
+              (LoopStep.next tokens : LoopStep (List token) (List token)))
+        else
+          let token := ({ str := x.2, isBareword := false } : Dtail.Gen.MaprQuery.token)
+          let tokens := (tokens ++ [token])
+          LoopStep.next tokens)
+      (fun tokens => tokens)).length ≤ tokens.length + partsWeight (l.map (·.2)) := by
+  intro l
+  induction l with
+  | nil => intro tokens; simp [goRange, partsWeight]
+  | cons x rest ih =>
+    intro tokens
+    rw [goRange_cons]
+    have hlen : ∀ (fs : List GoString) (ts : List token),
+        (fs.foldl (fun (ts : List token) (t : GoString) => ts ++ [({ str := t, isBareword := true } : Dtail.Gen.MaprQuery.token)]) ts).length
+          = ts.length + fs.length := by
+      intro fs
+      induction fs with
+      | nil => intro ts; rfl
+      | cons f fr ihf => intro ts; rw [List.foldl_cons, ihf]; simp; omega
+    by_cases he : ((Int.tmod x.1 2) == 0) = true
+    · have hb : (if ((Int.tmod x.1 2) == 0) then
+            let commasStripped := (List.map (fun b => if b == (44 : UInt8) then (32 : UInt8) else b) x.2)
+            goRange (fields commasStripped) tokens
+              (fun tokens tokenStr =>
+                let token := ({ str := tokenStr, isBareword := true } : Dtail.Gen.MaprQuery.token)
+                let tokens := (tokens ++ [token])
+                LoopStep.next tokens)
+              (fun tokens => (LoopStep.next tokens : LoopStep (List token) (List token)))
+          else
+            let token := ({ str := x.2, isBareword := false } : Dtail.Gen.MaprQuery.token)
+            let tokens := (tokens ++ [token])
+            LoopStep.next tokens)
+          = LoopStep.next (List.foldl (fun (ts : List token) (t : GoString) => ts ++ [({ str := t, isBareword := true } : Dtail.Gen.MaprQuery.token)]) tokens
+              (fields (List.map (fun b => if b == (44 : UInt8) then (32 : UInt8) else b) x.2))) := by
+        rw [if_pos he]
+        exact goRange_fold _ tokens _ _ _ (fun _ _ => rfl)
+      rw [hb]
+      have h1 := ih (List.foldl (fun (ts : List token) (t : GoString) => ts ++ [({ str := t, isBareword := true } : Dtail.Gen.MaprQuery.token)]) tokens
+        (fields (List.map (fun b => if b == (44 : UInt8) then (32 : UInt8) else b) x.2)))
+      rw [hlen] at h1
+      have h2 := fields_length (List.map (fun b => if b == (44 : UInt8) then (32 : UInt8) else b) x.2)
+      simp only [List.length_map] at h2
+      simp only [List.map_cons, partsWeight]
+      refine Nat.le_trans h1 ?_
+      omega
+    · have hb : (if ((Int.tmod x.1 2) == 0) then
+            let commasStripped := (List.map (fun b => if b == (44 : UInt8) then (32 : UInt8) else b) x.2)
+            goRange (fields commasStripped) tokens
+              (fun tokens tokenStr =>
+                let token := ({ str := tokenStr, isBareword := true } : Dtail.Gen.MaprQuery.token)
+                let tokens := (tokens ++ [token])
+                LoopStep.next tokens)
+              (fun tokens => (LoopStep.next tokens : LoopStep (List token) (List token)))
+          else
+            let token := ({ str := x.2, isBareword := false } : Dtail.Gen.MaprQuery.token)
+            let tokens := (tokens ++ [token])
+            LoopStep.next tokens)
+          = LoopStep.next (tokens ++ [({ str := x.2, isBareword := false } : Dtail.Gen.MaprQuery.token)]) := by
+        rw [if_neg he]
+      rw [hb]
+      have h1 := ih (tokens ++ [({ str := x.2, isBareword := false } : Dtail.Gen.MaprQuery.token)])
+      simp only [List.length_append, List.length_cons, List.length_nil] at h1
+      simp only [List.map_cons, partsWeight]
+      refine Nat.le_trans h1 ?_
+      omega
+
+/-- **a query text has at most its length plus one tokens** -/
+theorem tokenize_length (ext : Ext) (queryStr : GoString) : (tokenize ext queryStr).length ≤ queryStr.length + 1 := by
+  unfold tokenize
+  have h := tokenize_loop ext (goEnum (splitOnByte (34 : UInt8) queryStr)) (GoZero.zero : List token)
+  have hm : (goEnum (splitOnByte (34 : UInt8) queryStr)).map (·.2) = splitOnByte (34 : UInt8) queryStr := by
+    unfold goEnum
+    rw [List.map_map]
+    have : ((fun (x : Int × GoString) => x.2) ∘ fun (p : GoString × Nat) => ((p.2 : Int), p.1)) = fun (p : GoString × Nat) => p.1 := rfl
+    rw [this]
+    exact List.zipIdx_map_fst _ _
+  rw [hm, splitOnByte_weight] at h
+  have hz : (GoZero.zero : List token).length = 0 := rfl
+  rw [hz, Nat.zero_add] at h
+  exact h
+
+/-- **`NewQuery` never panics, stated on the query text alone**: fuel beyond the length of the text plus one is enough -/
+theorem NewQuery_ok_text (ext : Ext) (queryStr : GoString) (hf : queryStr.length + 1 < ext.fuel) :
+    IsOk (NewQuery ext queryStr) :=
+  NewQuery_ok ext queryStr (Nat.lt_of_le_of_lt (tokenize_length ext queryStr) hf)
+
 end Dtail.GenQuery
